@@ -105,7 +105,7 @@ def run(module, cfg, *, workers=None, dump=False, coverage=False, env=None, time
     cfgp = cfg if os.path.isabs(cfg) else os.path.join(SPEC_DIR, cfg)
     if workers is None:
         workers = os.cpu_count() or 4
-    cmd = ['java', '-XX:+UseParallelGC', '-Xmx' + heap]
+    cmd = ['java', '-XX:+UseParallelGC', '-Xmx' + heap, '-Djava.io.tmpdir=' + work]          # (TLC leaves an empty tlc-<n> directory per run in the JVM's temporary directory)
     if view_dfs:
         cmd.append('-Dtlc2.tool.queue.IStateQueue=StateDeque')
     cmd += ['-cp', JAR, 'tlc2.TLC', '-workers', str(workers), '-metadir', os.path.join(work, 'meta'),
@@ -218,7 +218,7 @@ def simulate(module, cfg, *, num, depth, seed=1, timeout=1200, heap='2g'):
     spec = os.path.join(SPEC_DIR, module + '.tla')
     cfgp = cfg if os.path.isabs(cfg) else os.path.join(SPEC_DIR, cfg)
     prefix = os.path.join(work, 'tr')
-    cmd = ['java', '-XX:+UseParallelGC', '-Xmx' + heap, '-cp', JAR, 'tlc2.TLC', '-simulate', 'file=%s,num=%d' % (prefix, num), '-depth', str(depth),
+    cmd = ['java', '-XX:+UseParallelGC', '-Xmx' + heap, '-Djava.io.tmpdir=' + work, '-cp', JAR, 'tlc2.TLC', '-simulate', 'file=%s,num=%d' % (prefix, num), '-depth', str(depth),
            '-workers', '1', '-seed', str(seed), '-metadir', os.path.join(work, 'meta'), '-noGenerateSpecTE', '-deadlock', '-config', cfgp, spec]
     e = dict(os.environ)
     e.pop('JAVA_TOOL_OPTIONS', None)
